@@ -19,7 +19,7 @@ func init() {
 	register(&Property{
 		Meta: report.Meta{
 			Property:    "C17",
-			Explanation: "Structural rules on package container: (R1) variant pipelines — for each of the 16 From*/To* functions the set of stages reachable in the package's call graph (base64 = encoding/base64.NewDecoder/NewEncoder, car = readCar/writeCar, cbor = the ipld.DecodeStreaming / EncodeStreaming call of FromCborReader / ToCborWriter) must be exactly what the API name announces, byte and stream variants of a format must agree, byte variants wrap their argument in a reader / collect a buffer, and the base64 variants hand the base64 wrapper of the caller's stream to the format core; (R2) single door — entries are stored into a container.Reader only in addToken, under the CID and token returned by a successful token.FromSealed(data); (R3) all-or-nothing — in both readers an iteration continues only if the iterator reported no error and addToken succeeded, an aborted iteration leaves a non-nil error, and success is returned only after exhaustion; (R4) CAR integrity — readBlock succeeds only if Prefix(cid).Sum(data) equals the stored CID, for the cid/data split of the same section; (R5) the writers iterate the whole map and write cid ++ data (CAR) / every data (CBOR). (R6) pool typestate: no object is put back into a sync.Pool (directly or by a deferred call) while the function returns it, a view of it, or a function literal that captured it; a positive example under lint/testdata/canary/pool must be flagged on every run. Set equality of contents is a runtime-value clause and is not decided. (R2) every MapUpdate on a container.Reader, in whatever function, stores results #0 / #1 of one token.FromSealed call on a path that knows it succeeded.",
+			Explanation: "Structural rules on package container: (R1) variant pipelines — for each of the 16 From*/To* functions the set of stages reachable in the package's call graph (base64 = encoding/base64.NewDecoder/NewEncoder, car = readCar/writeCar, cbor = the ipld.DecodeStreaming / EncodeStreaming call of FromCborReader / ToCborWriter) must be exactly what the API name announces, byte and stream variants of a format must agree, byte variants wrap their argument in a reader / collect a buffer, and the base64 variants hand the base64 wrapper of the caller's stream to the format core; (R2) single door — entries are stored into a container.Reader only in addToken, under the CID and token returned by a successful token.FromSealed(data); (R3) all-or-nothing — in both readers an iteration continues only if the iterator reported no error and addToken succeeded, an aborted iteration leaves a non-nil error, and success is returned only after exhaustion; (R4) CAR integrity — readBlock succeeds only if Prefix(cid).Sum(data) equals the stored CID, for the cid/data split of the same section; (R5) the writers iterate the whole map and write cid ++ data (CAR) / every data (CBOR). (R6) pool typestate: no object is put back into a sync.Pool (directly or by a deferred call) while the function returns it, a view of it, or a function literal that captured it; a positive example under lint/testdata/canary/pool must be flagged on every run. Set equality of contents is a runtime-value clause and is not decided. (R2) every MapUpdate on a container.Reader, in whatever function, stores results #0 / #1 of one token.FromSealed call on a path that knows it succeeded. In every function that stores into a Reader, a path through a call of token.FromSealed without the fact that its error is nil ends in a failure return or panic.",
 			Assumptions: []string{"encoding/base64, bufio, go-cid and go-ipld-prime behave as documented", "range-over-func protocol of the Go compiler"},
 			Trusted:     []string{"encoding/base64", "go-cid", "go-ipld-prime", "golang.org/x/tools/go/ssa v0.29.0"},
 			NotDecided:  []string{"set equality of written and read contents (runtime values)", "behaviour of the CBOR / base64 codecs"},
@@ -31,7 +31,7 @@ func init() {
 func runC17(x *Ctx) {
 	x.C.Rule("C17.R1", "variant pipelines match the API names; byte/stream variants agree", 24)
 	x.C.Rule("C17.R2", "entries enter a Reader only through FromSealed; iterators hand out key and value of one step", 3)
-	x.C.Rule("C17.R3", "all-or-nothing reading", 7)
+	x.C.Rule("C17.R3", "all-or-nothing reading", 8)
 	x.C.Rule("C17.R4", "CAR block integrity", 3)
 	x.C.Rule("C17.R5", "writers cover the whole map and report every failed write", 4)
 
@@ -244,6 +244,34 @@ func singleDoor(x *Ctx) {
 			})
 		}
 		x.C.Obl("C17.R2", "door:"+name, x.pos(f), "stores the token returned by token.FromSealed(data) under the CID it returned, only after its success", ok && n > 0, dedupLines(detail))
+		// and a token that cannot be read stops the reading: on every path through the call that does not know it to
+		// have succeeded the function fails (a tolerated kind of error - a sentinel, a "skip" flag - drops the entry
+		// and hands back a smaller container without an error)
+		okA, nA := true, 0
+		detailA := ""
+		for _, p := range x.pathsQuiet(f) {
+			for _, c := range p.Calls() {
+				ct := p.Term(c)
+				if ct == nil || ct.Op != "call" || ct.Name != "token.FromSealed" {
+					continue
+				}
+				nA++
+				if p.HasFact(eqs(ct.String()+"#2", "const(nil)"), true) {
+					continue
+				}
+				failing := p.End == paths.EndPanic
+				if p.End == paths.EndReturn {
+					if o, _ := p.ErrorOutcome(); o == paths.Failure || o == paths.Delegated {
+						failing = true
+					}
+				}
+				if !failing {
+					okA = false
+					detailA += "a path on which token.FromSealed is not known to have succeeded goes on without failing:\n" + p.String() + "\n"
+				}
+			}
+		}
+		x.C.Obl("C17.R3", "unreadable-token-aborts:"+name, x.pos(f), "every path on which token.FromSealed did not succeed ends in a failure", okA && nA > 0, firstLines(detailA, 14))
 	}
 }
 
